@@ -569,6 +569,14 @@ def parse_vc(path, variables=None):
             cur = None
         elif kw == 'raw':
             cur.raw = True
+        elif kw == 'like':
+            # reuse the substitutions, loop invariants and hints of an earlier item (same source text shape)
+            src_spec = next((f for f in u.fns if (f.alias or f.path.split('::')[-1]) == rest and f is not cur), None)
+            if src_spec is None:
+                raise Lost("%s: `like %s` refers to an unknown item" % (path, rest))
+            cur.subs += list(src_spec.subs)
+            cur.hints += list(src_spec.hints)
+            cur.loops.update(src_spec.loops)
         elif kw == 'novac':
             cur.novac = True
         elif kw == 'assumed':
